@@ -1548,10 +1548,17 @@ pub fn observation(r: &Record) -> String {
         }
     }
     s.push_str(&format!("reads{:?};", read_total));
+    // Packets that carry nothing but ACK / PADDING / PING frames are left out: how many of them an
+    // endpoint sends depends on when it happens to be woken up (every forged datagram is a wake-up, and
+    // the stateless-reset exchanges that forged connection ids set off are hundreds more), which says
+    // nothing about what a forged datagram made it *do*; that such packets are never acknowledged unless
+    // genuinely sent is mon_auth's clause.
+    let bearing = |frames: &Vec<F>| frames.iter().any(|f| !matches!(f, F::Ack { .. } | F::Padding(_) | F::Ping));
     for ep in [CLIENT, SERVER] {
-        let mut rx: Vec<(u8, u64)> = r.rx.iter().filter(|p| p.ep == ep).map(|p| (p.space, p.pn)).collect();
+        let mut rx: Vec<(u8, u64)> = r.rx.iter().filter(|p| p.ep == ep && bearing(&p.frames)).map(|p| (p.space, p.pn)).collect();
         rx.sort();
         s.push_str(&format!("rx{}:{:?};", ep, rx));
+        let peer_bearing: BTreeSet<(u8, u64)> = r.tx.iter().filter(|p| p.ep == other(ep) && bearing(&p.frames)).map(|p| (p.space, p.pn)).collect();
         let mut acked: BTreeSet<(u8, u64)> = BTreeSet::new();
         let mut ecn_max: [u64; 3] = [0; 3];
         for p in r.tx.iter().filter(|p| p.ep == ep) {
@@ -1559,7 +1566,9 @@ pub fn observation(r: &Record) -> String {
                 if let F::Ack { ranges, ecn, .. } = f {
                     for (lo, hi) in ranges {
                         for x in *lo..=*hi {
-                            acked.insert((p.space, x));
+                            if peer_bearing.contains(&(p.space, x)) {
+                                acked.insert((p.space, x));
+                            }
                         }
                     }
                     if let (Some((a, b, c)), true) = (ecn, (p.space as usize) < 3) {
